@@ -195,12 +195,18 @@ Section Refine.
   Qed.
 
   (* stray never succeeds *)
+  Lemma rt_error_not_ok {A} t s : is_ok (fst (@rt_error src A t s)) = false.
+  Proof.
+    unfold rt_error. destruct (get_line_col src (tpos t)) as [[text line] col]. reflexivity.
+  Qed.
+
   Lemma stray_not_ok {A} tok (r : res A) s :
     is_ok r = false -> is_ok (fst (stray src tok r s)) = false.
   Proof.
     intros Hr. destruct r as [a|e|x| | | ]; try discriminate; try reflexivity.
     destruct x; try reflexivity; cbn; destruct tok as [t|]; try reflexivity;
-      unfold rt_error; destruct (get_line_col src (tpos t)) as [[text line] col]; reflexivity.
+      unfold bind, get_st; try apply rt_error_not_ok;
+      destruct (last_signal_token (io s)); apply rt_error_not_ok.
   Qed.
 
   Lemma run_special_refines rs mk s :
